@@ -30,12 +30,12 @@ def vec(items):
     return '[' + ','.join(out) + ']'
 
 
-def build_exec_harness(variant='ts-asan', ts=True, san='asan', heaptrack=False, repo=None, compiled_in=False):
-    v = build.build_variant(variant, ts=ts, san=san, repo=repo, compiled_in=compiled_in)
+def build_exec_harness(variant='ts-asan', ts=True, san='asan', heaptrack=False, repo=None, compiled_in=False, syslog_output=False):
+    v = build.build_variant(variant, ts=ts, san=san, repo=repo, compiled_in=compiled_in, nonreentrant=True, syslog_output=syslog_output)
     rec = build.build_shared('librec.so', [os.path.join(NATIVE, 'rec.c')])
     cf = ['-DVERIF_HEAPTRACK'] if heaptrack else []
     h = build.link_harness(v, os.path.join(v['dir'], 'h_exec'),
-                           [os.path.join(NATIVE, 'h_exec.c'), os.path.join(NATIVE, 'seam.c')],
+                           [os.path.join(NATIVE, 'h_exec.c'), os.path.join(NATIVE, 'seam.c'), os.path.join(NATIVE, 'nonreentrant.c')],
                            extra_cflags=cf,
                            extra_ld=['-L' + os.path.dirname(rec), '-lrec', '-Wl,-rpath,' + os.path.dirname(rec)] + (['-Wl,--wrap=malloc,--wrap=calloc,--wrap=realloc,--wrap=free,--wrap=strdup,--wrap=strndup,--wrap=getline'] if heaptrack else []))
     v['h_exec'] = h
